@@ -19,10 +19,11 @@ func init() {
 const dsigPath = "github.com/russellhaering/goxmldsig"
 
 type sigRoles struct {
-	Validators []*ssa.Function // functions calling (*dsig.ValidationContext).Validate
-	Finders    map[*ssa.Function]bool
-	Unmarshal  map[*ssa.Function]bool // module helpers forwarding to xml.Unmarshal
-	Decrypt    map[*ssa.Function]bool // SP decrypt step (returns an element parsed from decrypted bytes)
+	Validators     []*ssa.Function        // functions calling (*dsig.ValidationContext).Validate (the outermost function of such a chain)
+	ValidatorParts map[*ssa.Function]bool // helpers the validator was split into (analysed as part of it)
+	Finders        map[*ssa.Function]bool
+	Unmarshal      map[*ssa.Function]bool // module helpers forwarding to xml.Unmarshal
+	Decrypt        map[*ssa.Function]bool // SP decrypt step (returns an element parsed from decrypted bytes)
 }
 
 func findSigRoles(p *Prog) *sigRoles {
@@ -34,6 +35,39 @@ func findSigRoles(p *Prog) *sigRoles {
 	}
 	if len(sr.Validators) == 0 {
 		panic(unresolved{"role signature validator (function calling dsig.ValidationContext.Validate)"})
+	}
+	// the validator is the outermost function of its chain: when the function that calls Validate is an unexported
+	// helper with a single library caller that also takes the element and returns the helper's error (the second half
+	// of the validator moved into a function of its own), the caller is the validator and the helper a part of it
+	sr.ValidatorParts = map[*ssa.Function]bool{}
+	for i, v := range sr.Validators {
+		for round := 0; round < 2; round++ {
+			if v.Object() != nil && v.Object().Exported() {
+				break
+			}
+			var callers []*ssa.Function
+			for _, cs := range p.StaticCallersOf(v) {
+				if p.InLibrary(cs.Caller) && (len(callers) == 0 || callers[len(callers)-1] != cs.Caller) {
+					callers = append(callers, cs.Caller)
+				}
+			}
+			if len(callers) != 1 || callers[0].Pkg != v.Pkg || errIndex(callers[0]) < 0 {
+				break
+			}
+			w := callers[0]
+			takesEl := false
+			for _, q := range w.Params {
+				if typeIs(q.Type(), "github.com/beevik/etree", "Element") {
+					takesEl = true
+				}
+			}
+			if !takesEl || errIndex(w) != w.Signature.Results().Len()-1 || w.Signature.Results().Len() != v.Signature.Results().Len() {
+				break
+			}
+			sr.ValidatorParts[v] = true
+			v = w
+		}
+		sr.Validators[i] = v
 	}
 	// namespace-aware finders: call NSContext.LookupPrefix and return elements; plus their thin wrappers
 	for _, fn := range p.FuncsCalling("(" + dsigPath + "/etreeutils.NSContext).LookupPrefix") {
@@ -652,6 +686,7 @@ func checkValidateResult(r *Report, m *spModel, sr *sigRoles) {
 	rule := "C01.validate-result"
 	for _, fn := range sr.Validators {
 		a := NewAnalysis(p)
+		a.Inline = func(f *ssa.Function) bool { return sr.ValidatorParts[f] }
 		B := a.B
 		fc := a.Ctx(fn)
 		fc.ensureConds()
@@ -826,15 +861,23 @@ func checkRootsAs(r *Report, m *spModel, sr *sigRoles, rule string) {
 				}
 			}
 			kind := classifyCertSource(p, src)
+			if kind == "" || kind == "parse" {
+				// the selector as a plain function that is handed the configured fingerprint instead of reading it
+				for _, arg := range call.Call.Args {
+					if strings.HasSuffix(fc.AP(arg), "ServiceProvider.IDPCertificateFingerprint") && p.InLibrary(src) {
+						kind = "fingerprint"
+					}
+				}
+			}
 			uses = append(uses, srcUse{kind, fn, call})
 			switch kind {
 			case "metadata":
 				r.OK(rule, cons, p.InstrPos(call), "IdP metadata key descriptors ("+shortFn(src)+")")
-				checkMetadataCerts(r, p, src, rule)
+				checkMetadataCerts(r, p, src, rule, a.Ctx(fn).inlineCtx(src, call.Call.Args, call))
 				checkNoProcessState(r, p, src, rule)
 			case "fingerprint":
 				r.OK(rule, cons, p.InstrPos(call), "certificate matched against the configured fingerprint ("+shortFn(src)+")")
-				checkFingerprint(r, p, src, rule)
+				checkFingerprint(r, p, src, rule, a.Ctx(fn).inlineCtx(src, call.Call.Args, call))
 				checkNoProcessState(r, p, src, rule)
 			case "parse":
 				// argument must be the pinned certificate from configuration
@@ -1012,13 +1055,18 @@ func classifyCertSource(p *Prog, fn *ssa.Function) string {
 
 // checkMetadataCerts: every append to the certificate-string accumulator is under Use in {"", "signing"},
 // and the strings come from X509Certificates of KeyDescriptors of IDPSSODescriptors of sp.IDPMetadata.
-func checkMetadataCerts(r *Report, p *Prog, top *ssa.Function, rule string) {
-	a := NewAnalysis(p)
+func checkMetadataCerts(r *Report, p *Prog, top *ssa.Function, rule string, topCtx *FuncCtx) {
+	a := topCtx.A
 	B := a.B
 	n := 0
 	// the strings may be collected by an unexported helper of the source function
 	for _, fn := range helperRegion(p, top, 2) {
 		fc := a.Ctx(fn)
+		if fn == top {
+			// (seen from its call: a selector that is handed the metadata instead of reading it from the SP names it as
+			// what the caller passed)
+			fc = topCtx
+		}
 		fc.ensureConds()
 		r.Fn(p.FnName(fn))
 		for _, b := range fn.Blocks {
@@ -1120,10 +1168,9 @@ func helperRegion(p *Prog, fn *ssa.Function, depth int) []*ssa.Function {
 }
 
 // checkFingerprint: success return under *sp.IDPCertificateFingerprint == fingerprint(cert, ...) for the returned cert.
-func checkFingerprint(r *Report, p *Prog, fn *ssa.Function, rule string) {
-	a := NewAnalysis(p)
+func checkFingerprint(r *Report, p *Prog, fn *ssa.Function, rule string, fc *FuncCtx) {
+	a := fc.A
 	B := a.B
-	fc := a.Ctx(fn)
 	fc.ensureConds()
 	r.Fn(p.FnName(fn))
 	for _, ret := range fc.Returns() {
@@ -1145,10 +1192,7 @@ func checkFingerprint(r *Report, p *Prog, fn *ssa.Function, rule string) {
 					if ex, okx := v.(*ssa.Extract); okx {
 						if call, okc := ex.Tuple.(*ssa.Call); okc && len(call.Call.Args) > 0 {
 							// (the certificate operand of the fingerprint function, wherever it stands among its arguments)
-							for _, arg := range call.Call.Args {
-								if !typeIs(arg.Type(), "crypto/x509", "Certificate") {
-									continue
-								}
+							for _, arg := range operandsOfType(call, func(t types.Type) bool { return typeIs(t, "crypto/x509", "Certificate") }) {
 								certAP := fc.AP(arg)
 								leaves := rootLeaves(Resolve(ret.Results[0]), map[ssa.Value]bool{})
 								for _, lf := range leaves {
@@ -1282,6 +1326,17 @@ func checkSamePath(r *Report, m *spModel, sr *sigRoles) {
 				}
 			}
 			pa, isParam := arg.(*ssa.Parameter)
+			// ... or a field of the caller's own context object (a parameter object that groups what used to be parameters)
+			if !isParam && types.TypeString(arg.Type(), nil) == ts {
+				if q, path, okc := fieldChainOf(caller, arg); okc && len(path) > 0 && unexportedStruct(derefType(q.Type())) != nil {
+					continue
+				}
+				if par := caller.Parent(); par != nil {
+					if q, path, okc := fieldChainOf(par, arg); okc && len(path) > 0 && unexportedStruct(derefType(q.Type())) != nil {
+						continue
+					}
+				}
+			}
 			if !isParam || types.TypeString(pa.Type(), nil) != ts {
 				ok = false
 				why = append(why, fmt.Sprintf("%s is %s, not the caller's own parameter", what, fc.AP(arg)))
